@@ -6,7 +6,7 @@ retargeting arithmetic; program-level equivalence of lazily generated basic-bloc
                (harness/C03/tramp.c), both stack alignments
   thunk.*  (2) E1 on the real _MIR_redirect_thunk / _MIR_get_thunk_addr / _MIR_replace_bb_thunk / _MIR_change_code for
                every pair of addresses (harness/C03/thunk_arith.c)
-  mix.*    the entry of the real generate_func_code on a function interpreted before (known finding N24)
+  mix.*    the entry of the real generate_func_code on a function interpreted before (finding N24, repaired in /repo)
   shim.*   (3) the real _MIR_get_interp_shim per result-type list (harness/C06/shim.c, shared with C06)
 """
 import json
